@@ -44,40 +44,32 @@ Proof.
   unfold time_from_string. rewrite Ht, Hy, H7, H30. reflexivity.
 Qed.
 
-(** *** a string that parses under a layout accepted by [tokenize] is never a keyword *)
-Definition date_char (c : N) : bool := is_digit c || safe_literal c.
+(** *** a string that parses under a layout accepted by [tokenize] is never a keyword: the
+    first byte of a string that parses is a digit, a safe literal, or (with the case folded) the first
+    letter of a month name; the keywords begin with [t], [y] and [l] *)
 Definition safe_tok (t : ltoken) : Prop := match t with Lit c => safe_literal c = true | _ => True end.
 
-Lemma tokenize_fuel_step : forall f c r,
-  let T := tokenize_fuel (S f) (c :: r) in
-  (exists r', T = option_map (cons Y4) (tokenize_fuel f r')) \/
-  (exists r', T = option_map (cons M2) (tokenize_fuel f r')) \/
-  (exists r', T = option_map (cons D2) (tokenize_fuel f r')) \/
-  T = if safe_literal c then option_map (cons (Lit c)) (tokenize_fuel f r) else None.
+(** a byte a parsed string can begin with *)
+Definition first_char (c : N) : bool :=
+  is_digit c || safe_literal c
+  || existsb (fun name => match name with n0 :: _ => match_byte c n0 | [] => false end) (short_months ++ long_months).
+
+Lemma next_elem_safe : forall l t n, next_elem l = Some (t, n) -> safe_tok t.
 Proof.
-  intros f c r T. subst T. cbn [tokenize_fuel].
+  intros l t n. unfold next_elem. destruct l as [|c r]; [discriminate|].
   repeat match goal with
-         | |- context [match ?x with _ => _ end] => is_var x; destruct x
-         end;
-  first [ right; right; right; reflexivity
-        | left; eexists; reflexivity
-        | right; left; eexists; reflexivity
-        | right; right; left; eexists; reflexivity ].
+         | |- (if ?x then _ else _) = _ -> _ => destruct x eqn:?
+         end; intros H; try discriminate; inversion H; subst; cbn; auto.
 Qed.
 
 Lemma tokenize_fuel_safe : forall fuel l toks, tokenize_fuel fuel l = Some toks -> Forall safe_tok toks.
 Proof.
   induction fuel as [|f IH]; intros l toks H.
   - cbn in H. destruct l; inversion H. constructor.
-  - assert (Hcons : forall (t : ltoken) r, safe_tok t -> option_map (cons t) (tokenize_fuel f r) = Some toks -> Forall safe_tok toks).
-    { intros t r Ht Hm. destruct (tokenize_fuel f r) as [tl|] eqn:E; [|discriminate].
-      cbn in Hm. inversion Hm; subst. constructor; [exact Ht|]. apply (IH r). exact E. }
-    destruct l as [|c r]; [cbn in H; inversion H; constructor|].
-    destruct (tokenize_fuel_step f c r) as [[r' Hs]|[[r' Hs]|[[r' Hs]|Hs]]]; rewrite Hs in H.
-    + apply (Hcons Y4 r' I H).
-    + apply (Hcons M2 r' I H).
-    + apply (Hcons D2 r' I H).
-    + destruct (safe_literal c) eqn:Es; [|discriminate]. apply (Hcons (Lit c) r Es H).
+  - cbn [tokenize_fuel] in H. destruct l as [|c r]; [inversion H; constructor|].
+    destruct (next_elem (c :: r)) as [[t n]|] eqn:En; [|discriminate].
+    destruct (tokenize_fuel f (skipn n (c :: r))) as [tl|] eqn:E; [|discriminate].
+    cbn in H. inversion H; subst. constructor; [eapply next_elem_safe; exact En|]. eapply IH; exact E.
 Qed.
 
 Lemma tokenize_safe : forall layout toks, tokenize layout = Some toks -> Forall safe_tok toks.
@@ -87,94 +79,74 @@ Proof.
   destruct (_ && _)%bool; [|discriminate]. inversion H; subst. eapply tokenize_fuel_safe; exact E.
 Qed.
 
-Lemma take_digits_chars : forall n s acc v s', take_digits n s acc = Some (v, s') ->
-  exists pre, s = pre ++ s' /\ Forall (fun c => date_char c = true) pre.
+Lemma take_digits_first : forall n c s acc v s', take_digits (S n) (c :: s) acc = Some (v, s') -> is_digit c = true.
 Proof.
-  induction n as [|k IH]; intros s acc v s' H.
-  - cbn in H. inversion H; subst. exists []. split; [reflexivity|constructor].
-  - cbn [take_digits] in H. destruct s as [|c r]; [discriminate|].
-    unfold digit_val in H. destruct (is_digit c) eqn:Ed; [|discriminate].
-    apply IH in H. destruct H as [pre [Hs Hf]]. exists (c :: pre). split; [subst; reflexivity|].
-    constructor; [unfold date_char; rewrite Ed; reflexivity|exact Hf].
+  intros n c s acc v s' H. cbn [take_digits] in H. unfold digit_val in H. destruct (is_digit c); [reflexivity|discriminate].
 Qed.
 
-(** a space of the layout is Go's [time.skip] (a run of spaces, the space literals after it consumed
-    with it): a successful parse under [Lit 32 :: r] is a successful parse under [r] of the text
-    without some of its leading spaces *)
-Lemma drop_spaces_split : forall s, exists pre, s = pre ++ drop_spaces s /\ Forall (fun c => c = 32%N) pre.
+Lemma get_num_first : forall c s v s', get_num (c :: s) = Some (v, s') -> is_digit c = true.
 Proof.
-  induction s as [|c s [pre [E F]]]; [exists []; split; [reflexivity|constructor]|].
-  destruct (N.eqb_spec c 32) as [->|Hc].
-  - exists (32%N :: pre). split; [cbn [app drop_spaces]; f_equal; exact E|constructor; [reflexivity|exact F]].
-  - exists []. split; [|constructor]. cbn [app].
-    destruct c as [|p]; [reflexivity|]. do 6 (try (destruct p as [p|p|]; try reflexivity)).
-    exfalso; apply Hc; reflexivity.
+  intros c s v s' H. cbn [get_num] in H. unfold digit_val in H. destruct (is_digit c); [reflexivity|discriminate].
 Qed.
 
-Lemma parse_tokens_space_step : forall r s y m d res,
-  parse_tokens (Lit 32%N :: r) s y m d = Some res ->
-  exists pre s', s = pre ++ s' /\ Forall (fun c => c = 32%N) pre /\ parse_tokens r s' y m d = Some res.
+Lemma lookup_name_first : forall tab i c s v r, lookup_name tab i (c :: s) = Some (v, r) ->
+  existsb (fun name => match name with n0 :: _ => match_byte c n0 | [] => false end) tab = true \/ In [] tab.
 Proof.
-  intros r s y m d res H.
-  assert (Hr : drop_space_lits r = r \/ exists r', r = Lit 32%N :: r').
-  { destruct r as [|[| | |c] r']; try (left; reflexivity).
-    destruct (N.eqb_spec c 32) as [->|Hc]; [right; eexists; reflexivity|left].
-    destruct c as [|p]; [reflexivity|]. do 6 (try (destruct p as [p|p|]; try reflexivity)).
-    exfalso; apply Hc; reflexivity. }
-  cbn [parse_tokens] in H. change (32 =? 32)%N with true in H. cbv iota in H.
-  destruct Hr as [E|[r' ->]].
-  - rewrite E in H. destruct s as [|c s0].
-    + exists [], []. split; [reflexivity|split; [constructor|exact H]].
-    + destruct (c =? 32)%N; [|discriminate].
-      destruct (drop_spaces_split (c :: s0)) as [pre [E1 F1]].
-      exists pre, (drop_spaces (c :: s0)). split; [exact E1|split; [exact F1|exact H]].
-  - exists [], s. split; [reflexivity|split; [constructor|]].
-    cbn [parse_tokens]. change (32 =? 32)%N with true. cbv iota. exact H.
+  induction tab as [|name tab IH]; intros i c s v r H; [discriminate|]. cbn [lookup_name] in H. cbn [existsb In].
+  destruct name as [|n0 name]; [right; left; reflexivity|]. cbn [match_prefix] in H.
+  destruct (match_byte c n0) eqn:E; [left; reflexivity|].
+  apply IH in H. destruct H as [H|H]; [left; rewrite H; apply orb_true_r|right; right; exact H].
 Qed.
 
-Lemma parse_tokens_chars : forall toks s y m d r, Forall safe_tok toks ->
-  parse_tokens toks s y m d = Some r -> Forall (fun c => date_char c = true) s.
+(** the first byte of a string that parses under a safe layout *)
+Lemma parse_tokens_first : forall toks c s y m d r, Forall safe_tok toks ->
+  parse_tokens toks (c :: s) y m d = Some r -> first_char c = true.
 Proof.
-  induction toks as [|t toks IH]; intros s y m d r Hsafe H.
-  - cbn in H. destruct s; [constructor|discriminate].
-  - inversion Hsafe as [|t0 l0 Ht Hrest]; subst.
-    destruct t as [| | |c]; cbn [parse_tokens] in H.
-    + destruct (take_digits 4 s 0) as [[v s']|] eqn:E; [|discriminate].
-      apply take_digits_chars in E. destruct E as [pre [Hs Hf]]. subst s.
-      apply Forall_app. split; [exact Hf|]. eapply IH; eassumption.
-    + destruct (take_digits 2 s 0) as [[v s']|] eqn:E; [|discriminate].
-      destruct (_ && _)%bool; [|discriminate].
-      apply take_digits_chars in E. destruct E as [pre [Hs Hf]]. subst s.
-      apply Forall_app. split; [exact Hf|]. eapply IH; eassumption.
-    + destruct (take_digits 2 s 0) as [[v s']|] eqn:E; [|discriminate].
-      destruct (_ && _)%bool; [|discriminate].
-      apply take_digits_chars in E. destruct E as [pre [Hs Hf]]. subst s.
-      apply Forall_app. split; [exact Hf|]. eapply IH; eassumption.
-    + revert H. destruct (N.eqb_spec c 32) as [->|Hc]; intros H.
-      * apply parse_tokens_space_step in H. destruct H as [pre [s' [-> [Hpre H]]]].
-        apply Forall_app. split; [|eapply IH; eassumption].
-        eapply Forall_impl; [|exact Hpre]. intros a ->. reflexivity.
-      * destruct s as [|c' s']; [discriminate|].
-        destruct (N.eqb_spec c c') as [Ec|Ec]; [|discriminate]. subst c'.
-        constructor; [unfold date_char; cbn in Ht; rewrite Ht; apply orb_true_r|]. eapply IH; eassumption.
-Qed.
-
-Lemma parse_date_chars : forall toks s c, Forall safe_tok toks -> parse_date toks s = Some c ->
-  Forall (fun x => date_char x = true) s.
-Proof.
-  intros toks s c Hsafe H. unfold parse_date in H.
-  destruct (parse_tokens toks s 0 1 1) as [[[y m] d]|] eqn:E; [|discriminate].
-  eapply parse_tokens_chars; eassumption.
+  intros toks c s y m d r Hsafe H. unfold first_char.
+  destruct toks as [|t toks]; [discriminate|]. inversion Hsafe as [|t0 l0 Ht _]; subst.
+  destruct t as [| | | | | | | |c0]; cbn [parse_tokens] in H.
+  - destruct (take_digits 4 (c :: s) 0) as [[v s']|] eqn:E; [|discriminate].
+    rewrite (take_digits_first _ _ _ _ _ _ E). reflexivity.
+  - destruct (take_digits 2 (c :: s) 0) as [[v s']|] eqn:E; [|discriminate].
+    rewrite (take_digits_first _ _ _ _ _ _ E). reflexivity.
+  - destruct (take_digits 2 (c :: s) 0) as [[v s']|] eqn:E; [|discriminate].
+    rewrite (take_digits_first _ _ _ _ _ _ E). reflexivity.
+  - destruct (get_num (c :: s)) as [[v s']|] eqn:E; [|discriminate].
+    rewrite (get_num_first _ _ _ _ E). reflexivity.
+  - destruct (N.eqb_spec c 32) as [->|Hc]; [reflexivity|].
+    assert (E0 : drop_one_space (c :: s) = c :: s).
+    { destruct c as [|p]; [reflexivity|]. do 6 (try (destruct p as [p|p|]; try reflexivity)).
+      exfalso; apply Hc; reflexivity. }
+    rewrite E0 in H. destruct (get_num (c :: s)) as [[v s']|] eqn:E; [|discriminate].
+    rewrite (get_num_first _ _ _ _ E). reflexivity.
+  - destruct (get_num (c :: s)) as [[v s']|] eqn:E; [|discriminate].
+    rewrite (get_num_first _ _ _ _ E). reflexivity.
+  - destruct (lookup_name short_months 1 (c :: s)) as [[v s']|] eqn:E; [|discriminate].
+    apply lookup_name_first in E. destruct E as [E|E].
+    + apply orb_true_iff. right. rewrite existsb_app. apply orb_true_iff. left. exact E.
+    + exfalso. cbv [short_months In] in E. repeat (destruct E as [E|E]; [discriminate|]). exact E.
+  - destruct (lookup_name long_months 1 (c :: s)) as [[v s']|] eqn:E; [|discriminate].
+    apply lookup_name_first in E. destruct E as [E|E].
+    + apply orb_true_iff. right. rewrite existsb_app. apply orb_true_iff. right. exact E.
+    + exfalso. cbv [long_months In] in E. repeat (destruct E as [E|E]; [discriminate|]). exact E.
+  - cbn in Ht. destruct (N.eqb_spec c0 32) as [->|Hc].
+    + destruct (N.eqb_spec c 32) as [->|]; [reflexivity|discriminate].
+    + destruct (N.eqb_spec c0 c) as [<-|]; [|discriminate]. rewrite Ht. rewrite orb_true_r. reflexivity.
 Qed.
 
 Lemma parsed_not_keyword : forall toks s c, Forall safe_tok toks -> parse_date toks s = Some c -> is_keyword s = false.
 Proof.
-  intros toks s c Hsafe H. apply parse_date_chars in H; [|exact Hsafe].
+  intros toks s c Hsafe H. unfold parse_date in H.
+  destruct (parse_tokens toks s 0 1 1) as [r|] eqn:E; [|discriminate]. clear H.
   unfold is_keyword.
-  destruct (beq s (b "today")) eqn:E1; [apply beq_true_iff in E1; subst; inversion H as [|x l Hx _]; discriminate Hx|].
-  destruct (beq s (b "yesterday")) eqn:E2; [apply beq_true_iff in E2; subst; inversion H as [|x l Hx _]; discriminate Hx|].
-  destruct (beq s (b "last7")) eqn:E3; [apply beq_true_iff in E3; subst; inversion H as [|x l Hx _]; discriminate Hx|].
-  destruct (beq s (b "last30")) eqn:E4; [apply beq_true_iff in E4; subst; inversion H as [|x l Hx _]; discriminate Hx|].
+  destruct (beq s (b "today")) eqn:E1;
+    [apply beq_true_iff in E1; subst; apply (parse_tokens_first _ _ _ _ _ _ _ Hsafe) in E; vm_compute in E; discriminate|].
+  destruct (beq s (b "yesterday")) eqn:E2;
+    [apply beq_true_iff in E2; subst; apply (parse_tokens_first _ _ _ _ _ _ _ Hsafe) in E; vm_compute in E; discriminate|].
+  destruct (beq s (b "last7")) eqn:E3;
+    [apply beq_true_iff in E3; subst; apply (parse_tokens_first _ _ _ _ _ _ _ Hsafe) in E; vm_compute in E; discriminate|].
+  destruct (beq s (b "last30")) eqn:E4;
+    [apply beq_true_iff in E4; subst; apply (parse_tokens_first _ _ _ _ _ _ _ Hsafe) in E; vm_compute in E; discriminate|].
   reflexivity.
 Qed.
 
